@@ -4,7 +4,7 @@ import re
 
 from ..loader import norm, AnalysisError
 from .. import legs as lg
-from ..legs import LegError, TVal
+from ..legs import LegError, LegUnknown, TVal
 from ..legs_interp import LegInterp, QV
 from ..match import pmatch
 from . import legrules as lr
@@ -194,6 +194,8 @@ def product_site_value(repo, q):
         it = LegInterp(fi, env, repo=repo, body=body)
         it.run()
     except LegError as ex:
+        if isinstance(ex, LegUnknown):
+            raise           # not understood is not a finding
         return fi, loops[0], None, str(ex), (f'{a}.A[{i}]', f'{b}.A[{i}]')
     if res is not None:
         v = it.env.get(f'@{res}.A[{i}]')
@@ -220,6 +222,8 @@ def product_rules(chk, repo, rid):
         it.run()
         res = [v for k, v in it.env.items() if k.startswith('@') and k not in env and isinstance(v, TVal)]
     except LegError as ex:
+        if isinstance(ex, LegUnknown):
+            raise           # not understood is not a finding
         chk.ob(rid, where(repo, fi, loop[0]), 'apply_operator: site update is well-formed in the leg domain', False, str(ex),
                key=f'{rid}|apply|wellformed')
         res = []
@@ -276,6 +280,8 @@ def product_rules(chk, repo, rid):
         it.run()
         v = it.env.get(f'@{resn}.A[{i}]')
     except LegError as ex:
+        if isinstance(ex, LegUnknown):
+            raise           # not understood is not a finding
         chk.ob(rid, where(repo, fi, loop[0]), 'multiply_mpo: site update is well-formed in the leg domain', False, str(ex),
                key=f'{rid}|multiply|wellformed')
         v = None
@@ -331,6 +337,8 @@ def merge_rules(chk, repo, rid):
         try:
             v = LegInterp(fi, env, repo=repo).run()
         except LegError as ex:
+            if isinstance(ex, LegUnknown):
+                raise           # not understood is not a finding
             chk.ob(rid, where(repo, fi, fi.node), f'{fi.name}: body is well-formed in the leg domain', False, str(ex),
                    key=f'{rid}|{q}|wellformed')
             n += 1
